@@ -254,6 +254,20 @@ pub fn number_templates() -> Vec<&'static str> {
     "[[{\"N\": 1000, k: 1}, {\"N\": 2000, k: 2}][1].k, N + 1]",
     "if [{\"N\": 1000, k: 1}][1].k > 0 then N - 1 else 0",
     "{k: [{\"N\": 1000, m: 1}][-1], m: N + 1}.m",
+    // the name read in the body of a function that is invoked from a nested scope: from another entry of a context, from
+    // the body of an iteration, of a quantified expression, of a filter, of another function
+    "{f: function(p) p + N, r: f(1)}.r",
+    "{f: function(p) p + N, r: [f(1), f(2)]}.r[2]",
+    "{f: function(p) p + N, r: for q in [1, 2] return f(q)}.r",
+    "{f: function(p) p * N, g: function(p) f(p) + 1, r: g(2)}.r",
+    "{f: function(p) p + N, r: {s: f(1)}}.r.s",
+    "for q in [1, 2] return (function(p) p + N)(q)",
+    "some q in [1, 2] satisfies (function(p) p + N)(q) > 1",
+    "every q in [1, 2] satisfies (function(p) p + N)(q) > 0",
+    "[1, 2][(function(p) p + N)(item) > 0]",
+    "(function(p) (function(q) q + N)(p))(1)",
+    "(function(p) (function(q) q + N)(q: p))(p: 1)",
+    "{f: function() N, r: for q in [1] return f()}.r",
   ]
 }
 
